@@ -4,6 +4,7 @@
 //! real code returned), so that a replay is just `exec` on a stored input.
 
 pub mod evalcase;
+pub mod evalgen;
 pub mod pragen;
 
 use serde_json::{Value, json};
